@@ -6,15 +6,29 @@ package internal
 // GH_smus[arr] (ghost): the SortableMutexes set whose backing array is arr is locked by the
 // current goroutine.
 
+// Lock / Unlock: callers rely on the ghost effect (the set is held); the bodies are checked for
+// what they may call: nothing is acquired besides the members of the set - in particular no
+// process-wide mutex is held while waiting for a member (independence of disjoint sets) - and
+// the set is sorted before the first acquisition.
 //@ func SortableMutexes.Lock
+//@   property C10 C05
 //@   trusted
+//@   flag checkbody=yes
+//@   flag nosafety
 //@   modifies GH_smus E_internal_SortableMutex
 //@   ensures GH_smus[s] && unchangedExcept(GH_smus, s)
+//@   atcall (*Mutex).Lock@* requires @nothing-but-the-members-is-locked false
+//@   atcall (*RWMutex).Lock@* requires @nothing-but-the-members-is-locked false
+//@   mustcall SortFunc@1 when @sorted-before-locking true
 //@ func SortableMutexes.Unlock
+//@   property C10 C05
 //@   trusted
+//@   flag checkbody=yes
+//@   flag nosafety
 //@   modifies GH_smus
 //@   requires GH_smus[s]
 //@   ensures !GH_smus[s] && unchangedExcept(GH_smus, s)
+//@   atcall (*Mutex).Lock@* requires @nothing-is-locked-while-unlocking false
 //@ func SortableMutex.AcquireDuration
 //@   trusted
 //@   pure
